@@ -613,7 +613,7 @@ def build_templates_unit(cfg, n, outdir):
 WORLD_SCHEMA_RS = 'world_schema.rs'
 
 
-def world_sidecars(cfg, q):
+def world_sidecars(cfg, q, schema):
     """instantiate the template-notation sidecars with the locals the generator functions computed for the schema"""
     from . import quoteinst, worldgen
     sc = sidecar.Sidecar()
@@ -621,8 +621,8 @@ def world_sidecars(cfg, q):
     nocomment = lambda t: '\n'.join('@@#' if l.startswith('@@#') else l for l in t.split('\n'))
     raw = nocomment(apply_sidecar_cfg(open(os.path.join(CONTRACTS, 'worldgen_arch.vsp')).read(), cfg))
     envs = q.envs.get('section_archetype', [])
-    if len(envs) != len(worldgen.SCHEMA.archetypes):
-        raise ExtractError('R-quote: section_archetype evaluated %d times for %d archetypes' % (len(envs), len(worldgen.SCHEMA.archetypes)))
+    if len(envs) != len(schema.archetypes):
+        raise ExtractError('R-quote: section_archetype evaluated %d times for %d archetypes' % (len(envs), len(schema.archetypes)))
     arch_envs = []
     for env in envs:
         e = {k: v for k, v in env.items() if isinstance(v, (str, int, list)) and not isinstance(v, bool)}
@@ -645,6 +645,8 @@ def world_sidecars(cfg, q):
         e['St'] = [ae['St'] for ae in arch_envs]
         e['StE'] = [ae['StE'] for ae in arch_envs]
         e['J'] = list(range(len(e['Archetype'])))
+        ev = q.envs.get('section_event_iter') or [{}]
+        e['iter'] = list(ev[0].get('iter') or ['iter_' + a for a in e['archetype']])      # locals of section_event_iter (events feature)
         e['others_same'] = ['(' + ' && '.join(['true'] + ['post.%s == pre.%s' % (f, f) for j, f in enumerate(e['archetype']) if j != i]) + ')'
                             for i in e['J']]
         e['data_cs'] = [', '.join('data.c%d()' % k for k in ae['I']) for ae in arch_envs]
@@ -655,38 +657,36 @@ def world_sidecars(cfg, q):
 
 
 def build_world_job(cfg, n, outdir):
-    return build_world_unit(cfg, outdir)
+    return build_world_unit(cfg, outdir, n=n)
 
 
-def build_world_unit(cfg, outdir, extra_tail=None, unit='world'):
+def build_world_unit(cfg, outdir, extra_tail=None, unit='world', n=2):
     """storage (N = 2) + the traits of src/traits.rs + the code ecs_world! generates for the schema (gv/worldgen.py)"""
     from . import quoteinst, worldgen
     log = Log()
     table = load_panic_table()
     raw = add_markers(read_repo('macros/src/generate/world.rs'), 'gworld')
     q = quoteinst.Quoter(raw, cfg, log, 'macros/src/generate/world.rs')
-    if 'section_event_iter' not in q.fns:
-        raise ExtractError('R-world: section_event_iter not found')
-    q.drop_fns['section_event_iter'] = 'EcsEventIterator (std::slice::Iter adapter; returns impl Iterator) is not extracted'
-    gen_text = q.eval_fn('generate_world', [worldgen.SCHEMA, 'RAW'])
-    sc, arch_envs = world_sidecars(cfg, q)
+    schema = worldgen.SCHEMAS[n]
+    gen_text = q.eval_fn('generate_world', [schema, 'RAW'])
+    sc, arch_envs = world_sidecars(cfg, q, schema)
     # documented panics of the generated code: their justification is written in template notation too
     wenv = {k: v for k, v in q.envs['generate_world'][0].items() if isinstance(v, (str, int, list)) and not isinstance(v, bool)}
     wenv['Tag'] = [worldgen.tag_of(a) for a in wenv['Archetype']]
     for e in table.entries:
         if e['file'] == 'macros/src/generate/world.rs' and e.get('allowed_when') and '#' in e['allowed_when']:
             e['allowed_when'] = quoteinst.instantiate(e['allowed_when'], wenv)
-    gen_text = worldgen.adapt_generated(gen_text, log, read_repo)
+    gen_text = worldgen.adapt_generated(gen_text, log, read_repo, schema)
     gen_text = common_rules(gen_text, cfg, 'macros/src/generate/world.rs', table, log)
     fs_gen = sc.files.get('gen:world') or sidecar.FileSpec('gen:world')
     gen_text, _ = apply_contracts(gen_text, fs_gen, log, 'macros/src/generate/world.rs', None)
     tr = worldgen.traits_text(read_repo, cfg, log, common_rules, table)
     fs_tr = sc.files.get('traits:world') or sidecar.FileSpec('traits:world')
     tr, _ = apply_contracts(tr, fs_tr, log, 'src/traits.rs', None)
-    schema = add_markers(apply_sidecar_cfg(open(os.path.join(CONTRACTS, WORLD_SCHEMA_RS)).read(), cfg), 'C:' + WORLD_SCHEMA_RS)
-    tail = ('// ======== src/traits.rs (R-split)\n' + tr + '\n// ======== schema component types (opaque)\n' + schema +
+    comps = add_markers(apply_sidecar_cfg(open(os.path.join(CONTRACTS, WORLD_SCHEMA_RS)).read(), cfg), 'C:' + WORLD_SCHEMA_RS)
+    tail = ('// ======== src/traits.rs (R-split)\n' + tr + '\n// ======== schema component types (opaque)\n' + comps +
             '\n// ======== generated by ecs_world! for the schema (R-quote, R-world)\n' + gen_text + (('\n' + extra_tail) if extra_tail else ''))
-    gen = build_storage_unit(cfg, 2, outdir, tail_text=tail, unit=unit)
+    gen = build_storage_unit(cfg, n, outdir, tail_text=tail, unit=unit)
     for k, v in log.rules.items():
         gen.log.rules[k] = gen.log.rules.get(k, 0) + v
     gen.log.notes.extend(log.notes)
